@@ -336,6 +336,11 @@ func runDial(t *testing.T, ksc KScenario, res *KResult) {
 			if p.Conn == cp.conn && (p.Type == TapInitial || p.Type == TapRetry || p.Type == TapHandshake) {
 				rec := w.Log[p.Dir][p.Ord]
 				res.Logf("  %d %s dgram=%d trailing=%d {%s-> %v}", p.SentNS/1000, p.String(), rec.Size, p.Trailing, rec.Fate, rec.Delivered)
+				if p.Err != "" {
+					if raw := w.rawDatagram(p.Dir, p.Ord); raw != nil {
+						res.Logf("      raw: %x", raw[p.Off:min(len(raw), p.Off+200)])
+					}
+				}
 			}
 		}
 		// ---- C02: the dial works (or the injected faults explain the failure)
